@@ -99,7 +99,10 @@ func runTaskctl(dir, cwd string, env []string, args ...string) (runResult, error
 	cmd := exec.Command(os.Getenv("VERIF_TASKCTL"), args...)
 	cmd.Dir = cwd
 	cmd.Env = append([]string{"HOME=" + filepath.Join(dir, "home"), "PATH=/usr/bin:/bin", "TMPDIR=" + filepath.Join(dir, "tmp")}, env...)
-	out, err := cmd.CombinedOutput()
+	out, err, hung := common.RunWithTimeout(cmd, 90*time.Second)
+	if hung {
+		return runResult{out: string(out), dir: dir}, fmt.Errorf("HANG: taskctl %v did not exit within 90 s: %s", args, common.HangSummary(string(out)))
+	}
 	r := runResult{out: string(out), dir: dir}
 	if err != nil {
 		ee, ok := err.(*exec.ExitError)
@@ -829,7 +832,7 @@ func main() {
 		common.ReadReplay(&rf)
 		d := runOne(rf.Case, root)
 		fmt.Printf("case: %s\nresult: %s\n", rf.Case, d)
-		if d != "" && !strings.HasPrefix(d, "infra:") {
+		if d != "" && (!strings.HasPrefix(d, "infra:") || strings.HasPrefix(d, "infra: HANG:")) {
 			fmt.Printf("VIOLATION property=%s replay=%s\n", target, *common.Replay)
 			os.Exit(1)
 		}
@@ -848,6 +851,15 @@ func main() {
 			res.AddSample(c.String())
 		}
 		d := runOne(c, root)
+		if strings.HasPrefix(d, "infra: HANG:") {
+			// a hang of the real process: a violation if the same case hangs again, otherwise recorded
+			if d2 := runOne(c, root); strings.HasPrefix(d2, "infra: HANG:") {
+				d = strings.TrimPrefix(d, "infra: ")
+			} else {
+				res.Notes = append(res.Notes, "intermittent_hang: "+c.String()+": "+d)
+				d = d2
+			}
+		}
 		if strings.HasPrefix(d, "infra:") {
 			fmt.Fprintln(os.Stderr, d)
 			os.Exit(2)
